@@ -163,16 +163,19 @@ fn code_map_routes(cm: &CodeMap) -> Option<String> {
 /// UTF-8 in the middle of a string / key / number, syntax errors at depth).  Called on the current thread before other
 /// calls: nothing a failed parse leaves behind may influence a later one.
 pub fn disturb() {
-	let _ = guarded(|| {
-		let _ = Value::parse_str("{\"stale-key-\\u00e9\":[1,\"stale string \\u12");
-		let _ = Value::parse_str("[\"left over\\uD800");
-		let _ = Value::parse_str_with("[\"left over\\uD83D", Options::flexible());
-		let _ = Value::parse_slice(b"{\"k\":\"abc\xff");
-		let _ = Value::parse_slice(b"[12345\xc0");
-		let _ = Value::parse_utf8("[\"abcdefghijklmnopqrstuvwxyz".chars().map(Ok::<char, ()>).chain(std::iter::once(Err(()))));
-		let _ = Value::parse_utf8("{\"key".chars().map(Ok::<char, ()>).chain(std::iter::once(Err(()))));
-		let _ = Value::parse_str("[[[{\"a\":[1,2,{\"b\":tru");
-		let _ = Value::parse_str("\"abc\\");
+	thread_local! { static TURN: std::cell::Cell<usize> = std::cell::Cell::new(0); }
+	let turn = TURN.with(|t| { t.set(t.get() + 1); t.get() });
+	// ONE failed parse per call, in rotation: a later failure could wipe what an earlier one left behind
+	let _ = guarded(|| match turn % 9 {
+		0 => drop(Value::parse_str("{\"stale-key-\\u00e9\":[1,\"stale string \\u12")),
+		1 => drop(Value::parse_str("[\"left over\\uD800")),
+		2 => drop(Value::parse_str_with("[\"left over\\uD83D", Options::flexible())),
+		3 => drop(Value::parse_slice(b"{\"k\":\"abc\xff")),
+		4 => drop(Value::parse_slice(b"[12345\xc0")),
+		5 => drop(Value::parse_utf8("[\"abcdefghijklmnopqrstuvwxyz".chars().map(Ok::<char, ()>).chain(std::iter::once(Err(()))))),
+		6 => drop(Value::parse_utf8("{\"key".chars().map(Ok::<char, ()>).chain(std::iter::once(Err(()))))),
+		7 => drop(Value::parse_str("[[[{\"a\":[1,2,{\"b\":tru")),
+		_ => drop(Value::parse_str("{\"abc\\uZ")),
 	});
 }
 
